@@ -161,6 +161,32 @@ def run(ctx):
             fitted_docs.append(("billing", json.loads(js)))
     except Exception as e:  # noqa
         res["hist"]["billing_unavailable:" + type(e).__name__] = 1
+    # the same with timezone objects of other libraries (dateutil, pytz, fixed offset): the stored baseline timezone must let the
+    # restored model accept exactly the data the original accepts
+    for tzname in ["dateutil/" + TZ, "pytz:" + TZ, "fixed:-06:00"]:
+        try:
+            if tzname.startswith("pytz:"):
+                import pytz
+                tzo = pytz.timezone(TZ)
+            elif tzname.startswith("fixed:"):
+                import datetime as _dt
+                tzo = _dt.timezone(_dt.timedelta(hours=-6))
+            else:
+                tzo = tzname
+            m_x = pd.Series(meter.to_numpy(), index=meter.index.tz_convert(tzo), name="observed")
+            t_x = pd.Series(ht.to_numpy(), index=ht.index.tz_convert(tzo), name="temperature")
+            bb_x = BillingBaselineData.from_series(m_x, t_x, is_electricity_data=True)
+            brd_x = {"inside": BillingReportingData.from_series(m_x.iloc[:6], t_x.iloc[:24 * 160], is_electricity_data=True)}
+            with contextlib.redirect_stdout(io.StringIO()):
+                bm_x = BillingModel().fit(bb_x, ignore_disqualification=True)
+                d_x = DailyBaselineData.from_series(pd.Series(synth_daily()["observed"].to_numpy(), index=synth_daily().index.tz_convert(tzo), name="observed"),
+                                                    t_x, is_electricity_data=True)
+                dm_x = DailyModel().fit(d_x, ignore_disqualification=True)
+        except Exception as e:  # noqa
+            res["hist"][f"tz_library_case_unavailable:{tzname}:{type(e).__name__}"] = 1
+            continue
+        roundtrip("billing[" + tzname + "]", bm_x, BillingModel, brd_x, res, sigs, ignore_disqualification=True)
+        roundtrip("daily[" + tzname + "]", dm_x, DailyModel, {"baseline": d_x}, res, sigs, ignore_disqualification=True)
     try:
         hb = HourlyBaselineData(synth_hourly(days=365), is_electricity_data=True)
         hrd = {"inside": HourlyReportingData(synth_hourly(days=30, seed=5), is_electricity_data=True),
